@@ -98,7 +98,16 @@ func checkC20(c *Ctx, w *World) {
 			if !ok {
 				return
 			}
-			if e, isE := mu.Key.(*ssa.Extract); isE && e.Tuple == ssa.Value(call) && e.Index == 0 {
+			// the key, on the ways that reach the insertion (a result variable of an inlined creation helper is resolved)
+			kcs := newCondSpace(s.Fn, nil)
+			keys := kcs.ResolveUnder(mu.Key, kcs.Reach(mu))
+			isNew := len(keys) > 0
+			for _, k := range keys {
+				if e, isE := k.(*ssa.Extract); !isE || e.Tuple != ssa.Value(call) || e.Index != 0 {
+					isNew = false
+				}
+			}
+			if isNew {
 				if f, _, isL := loadedField(mu.Map); isL && strings.HasPrefix(f, "gcpBalancer.") {
 					if m, isM := mu.Map.Type().Underlying().(*types.Map); isM && !isBasic(m.Elem()) {
 						containers[f] = s.Fn
